@@ -76,20 +76,20 @@ def getDims (j : Json) : Except String (List Dim) := do
 def getInfo (p u : Json) : Except String TyInfo := do
   pure { precision := ← optJ (·.getNat?) p, unsigned := ← optJ (·.getBool?) u }
 
-def getPayload (j : Json) : Except String Payload := do
+def getPayload (j : Json) : Except String (Payload Val) := do
   match ← getList j with
   | [Json.str "skip"] => pure .skip
   | [Json.str "group"] => pure .group
   | [Json.str "const"] => pure .const
-  | [Json.str "defn", ty, p, u, dims, unit, v] =>
-    pure (.defn (← getTy ty) (← getInfo p u) (← optJ getDims dims) (← optJ getStrL unit) (← getVal v))
-  | [Json.str "decl", ty, p, u, dims, unit] =>
-    pure (.decl (← getTy ty) (← getInfo p u) (← optJ getDims dims) (← optJ getStrL unit))
-  | [Json.str "assign", ty, unit, v] =>
-    pure (.assign (← optJ getTy ty) (← optJ getStrL unit) (← getVal v))
+  | [Json.str "typed", ty, p, u, dims, unit, hasv, v] =>
+    let hv ← hasv.getBool?
+    let val ← getVal v
+    pure (.typed (← getTy ty) (← getInfo p u) (← optJ getDims dims) (← optJ getStrL unit)
+      (if hv then some val else none))
+  | [Json.str "mod", unit, v] => pure (.mod (← optJ getStrL unit) (← getVal v))
   | _ => throw s!"bad payload {j}"
 
-def getALine (j : Json) : Except String ALine := do
+def getALine (j : Json) : Except String (ALine Val) := do
   match ← getList j with
   | [i, n, p] => pure { indent := ← i.getNat?, name := ← getStrL n, p := ← getPayload p }
   | _ => throw "bad line"
